@@ -1,7 +1,7 @@
 """C19 — string codecs and helpers: base64 tables / bit provenance / skip loops, hex digit
 tables vs parser switches, scan windows, writer/reader quoting agreement, three-way
 comparator orientation, case-insensitive overload families, forwarding roles."""
-from engine import ir, dtable, match, cfg as cfgm
+from engine import ir, dtable, match, linear, cfg as cfgm
 from engine.ir import kids, strip_casts, const_int, ref_of
 from rules.c20 import bits_eval, ShiftUB
 from rules.c15 import flatten_switch
@@ -310,54 +310,67 @@ def check_scan_window(ck, tu, fnq):
             ck.require(loop is not None and cur is not None, "%s: window loop not found" % fn.loc)
             init, cond, inc, body = match.loop_parts(loop)
             tag = "%s(%s)" % (fn.qname, ",".join(p["name"] for p in fn.params))
-            # guard form:  it + L <= end   |   end - it >= L   (L = sep.size())
-            okg, why = False, "the loop guard does not ensure that a whole separator fits at the cursor"
-            b = match.binop(cond, ("<", "<=", ">=", ">", "!="))
-            if b:
-                op, l, r = b
-
-                def is_sep_size(e):
-                    m = match.call_named(e, ("size", "length"))
-                    return bool(m is not None and "callee" in strip_casts(e) and ref_of(kids(strip_casts(e))[0]) == sep)
-
-                def is_end(e):
-                    m = match.call_named(e, ("end", "cend"))
-                    return bool(m is not None and "callee" in strip_casts(e) and ref_of(kids(strip_casts(e))[0]) == strp)
-                lp = match.binop(l, ("+", "-"))
-                if lp and lp[0] == "+" and ref_of(lp[1]) == cur and is_sep_size(lp[2]) and is_end(r):
-                    if op == "<=":
-                        okg = True
-                    elif op == "<":
-                        why = "`it + sep.size() < end` stops one position early: a separator at the very end of the string is never found"
-                    else:
-                        why = "the guard %s allows the comparison window to run past the end" % dtable.describe(cond)
-                elif lp and lp[0] == "-" and is_end(lp[1]) and ref_of(lp[2]) == cur and is_sep_size(r):
-                    okg = op == ">="
-                    if op == ">":
-                        why = "`end - it > sep.size()` stops one position early: a separator at the very end of the string is never found"
-                else:
-                    st = strip_casts(l)
-                    if st["k"] in ("CStyleCastExpr", "CXXStaticCastExpr", "CXXFunctionalCastExpr"):
-                        pass
-                    l2 = l
-                    while strip_casts(l2) is not l2 and False:
-                        pass
-                    lp2 = match.binop(strip_casts(l), ("-",))
-                    if lp2 and is_end(lp2[1]) and ref_of(lp2[2]) == cur and is_sep_size(r):
-                        okg = op == ">="
-            if not okg:
-                ck.violation("SCAN-WINDOW", fn.qname, tag + ":guard", why, fn.nloc(cond))
+            # guard: the loop condition, as a canonical linear inequality, is exactly  end - it - sep.size() >= 0
+            L = linear.Lin(fn, g)
+            size_calls = [y for y in fn.nodes() if "callee" in y and y.get("member_call") and y["callee"]["name"] in ("size", "length") and ref_of(kids(y)[0]) == sep]
+            end_calls = [y for y in fn.nodes() if "callee" in y and y.get("member_call") and y["callee"]["name"] in ("end", "cend") and ref_of(kids(y)[0]) == strp]
+            ck.require(size_calls and end_calls and cond is not None, "%s: sep.size() / str.end() not found" % fn.loc)
+            fe, fs, fc = L.form(end_calls[0], cond), L.form(size_calls[0], cond), L.form(kids(c)[2], cond)
+            terms = dict(fe[0])
+            for f_, sg in ((fs, -1), (fc, -1)):
+                for t, k_ in f_[0].items():
+                    terms[t] = terms.get(t, 0) + sg * k_
+            need = linear.canon({t: k_ for t, k_ in terms.items() if k_}, fe[1] - fs[1] - fc[1])
+            atom = L.atom(cond, True, use=cond)
+            if atom is None:
+                raise dtable.Undecidable("%s: loop guard is not an inequality: %s" % (fn.loc, dtable.describe(cond)))
+            if not linear.implies(atom, need):
+                ck.violation("SCAN-WINDOW", fn.qname, tag + ":guard", "the loop guard %s (%s >= 0) does not ensure that a whole separator fits at the cursor "
+                             "(needs %s >= 0): the comparison window can run past the end" % (dtable.describe(cond), linear.show(atom), linear.show(need)), fn.nloc(cond))
                 continue
-            # after a match the scan resumes past the matched window
-            ifs = fn.parent(c)
-            while ifs is not None and ifs["k"] != "IfStmt":
-                ifs = fn.parent(ifs)
-            adv = False
-            for y in ir.walk(kids(ifs)[1]):
-                bb = match.binop(y, ("=", "+="))
-                if bb and ref_of(bb[1]) == cur and strip_casts(bb[1])["k"] == "DeclRefExpr":
-                    adv = True
-            if not adv:
+            if not linear.same(atom, need):
+                ck.violation("SCAN-WINDOW", fn.qname, tag + ":guard", "the loop guard %s stops early (%s >= 0 instead of %s >= 0): a separator at the very end of "
+                             "the string is never found" % (dtable.describe(cond), linear.show(atom), linear.show(need)), fn.nloc(cond))
+                continue
+            # after a match the scan resumes past the matched window: every path from the match edge back to the loop head
+            # assigns the cursor (not merely ++)
+            head = g.pos_deep(cond)[0]
+            br = None
+            for bid, blk in g.blocks.items():
+                els = g.elements(bid)
+                if len(blk.get("succ", [])) == 2 and els and isinstance(els[-1], int):
+                    cn = fn.byid(els[-1])
+                    if cn is not None and any(y is c for y in ir.walk(cn)):
+                        br = (bid, cn)
+            ck.require(br is not None, "%s: branch on the separator comparison not found" % fn.loc)
+            neg = False
+            cn = strip_casts(br[1])
+            while cn is not None and cn is not c and (cn["k"] == "ParenExpr" or (cn["k"] == "UnaryOperator" and cn.get("op") == "!")):
+                if cn["k"] == "UnaryOperator":
+                    neg = not neg
+                cn = strip_casts(kids(cn)[0])
+            if cn is not c and strip_casts(cn) is not c:
+                raise dtable.Undecidable("%s: the separator comparison is part of a larger condition" % fn.loc)
+            raw = g.blocks[br[0]]["succ"]
+            start = raw[1] if neg else raw[0]
+            assigns = set()
+            for y in fn.nodes():
+                bb = match.binop(y, ("=", "+=")) if y["k"] in ("BinaryOperator", "CompoundAssignOperator", "CXXOperatorCallExpr") else None
+                if bb and ref_of(bb[1]) == cur and strip_casts(bb[1])["k"] == "DeclRefExpr" and g.pos_deep(y) is not None:
+                    assigns.add(g.pos_deep(y)[0])
+            seen, work, leak = set(), [start], False
+            while work:
+                b_ = work.pop()
+                if b_ in seen or b_ is None:
+                    continue
+                seen.add(b_)
+                if b_ in assigns:
+                    continue
+                if b_ == head:
+                    leak = True
+                    break
+                work.extend(g.succ[b_])
+            if leak:
                 ck.violation("SCAN-WINDOW", fn.qname, tag + ":resume",
                              "after a match the cursor is only advanced by one: an overlapping second match (separator 'aa' in 'aaaa') yields a part that ends before it begins", fn.nloc(c))
                 continue
